@@ -53,3 +53,87 @@ package param
 //@   loop 2 invariant [scan] (runeSeen ==> (exists j int :: 0 <= j && j < len(rv) && rv[j] == ch)) && rangeindex#2 >= 0 - 1
 //@   loop 1 step [read-rune-is-kept] exists j int :: 0 <= j && j < len(rv) && rv[j] == ch
 //@   loop 1 step [append-only] len(rv) >= prev(len(rv)) && (forall j int :: 0 <= j && j < prev(len(rv)) ==> rv[j] == prev(rv[j]))
+
+// ---- every parameter given is offered to the encoder, under its documented name, in one chain (C21:
+// "decode back to exactly the non-empty parameters that were given"): each value goes through
+// appendToParamString (which skips empty values and rejects ambiguous ones), each step continues the string
+// the previous one returned, the result is that string minus its last separator, and success is not
+// reported before the last parameter has been offered
+//@ func fuseParamsBundleString
+//@   call appendToParamString#1 assert [sp-in-its-place] $paramName == "sp" && $paramVal == bundleParams.SrcPath && $paramString == itemSep + kvSep
+//@   call appendToParamString#1 bind s1 = $ret0
+//@   call appendToParamString#2 assert [sr-in-its-place] $paramName == "sr" && $paramVal == bundleParams.SrcRepo && s1_set && $paramString == s1
+//@   call appendToParamString#2 bind s2 = $ret0
+//@   call appendToParamString#3 assert [sl-in-its-place] $paramName == "sl" && $paramVal == bundleParams.SrcLabel && s2_set && $paramString == s2
+//@   call appendToParamString#3 bind s3 = $ret0
+//@   call appendToParamString#4 assert [sb-in-its-place] $paramName == "sb" && $paramVal == bundleParams.SrcBundle && s3_set && $paramString == s3
+//@   call appendToParamString#4 bind s4 = $ret0
+//@   call appendToParamString#5 assert [dp-in-its-place] $paramName == "dp" && $paramVal == bundleParams.DestPath && s4_set && $paramString == s4
+//@   call appendToParamString#5 bind s5 = $ret0
+//@   call appendToParamString#6 assert [dr-in-its-place] $paramName == "dr" && $paramVal == bundleParams.DestRepo && s5_set && $paramString == s5
+//@   call appendToParamString#6 bind s6 = $ret0
+//@   call appendToParamString#7 assert [dm-in-its-place] $paramName == "dm" && $paramVal == bundleParams.DestMessage && s6_set && $paramString == s6
+//@   call appendToParamString#7 bind s7 = $ret0
+//@   call appendToParamString#8 assert [dl-in-its-place] $paramName == "dl" && $paramVal == bundleParams.DestLabel && s7_set && $paramString == s7
+//@   call appendToParamString#8 bind s8 = $ret0
+//@   call appendToParamString#9 assert [dif-in-its-place] $paramName == "dif" && $paramVal == bundleParams.DestBundleID && s8_set && $paramString == s8
+//@   call appendToParamString#9 bind s9 = $ret0
+//@   only appendToParamString 9
+//@   call TrimSuffix#1 assert [the-whole-string-minus-the-last-separator] s9_set && $0 == s9 && $1 == itemSep
+//@   ensures [success-means-every-parameter-was-offered] ret1 == nil ==> s9_set
+
+//@ func fuseParamsGlobalString
+//@   call appendToParamString#1 assert [c-in-its-place] $paramName == "c" && $paramVal == fuseParams.Globals.CoordPoint && (fuseParams.Globals.SleepInsteadOfExit ==> $paramString == itemSep + kvSep + ("S" + itemSep)) && (!fuseParams.Globals.SleepInsteadOfExit ==> $paramString == itemSep + kvSep)
+//@   call appendToParamString#1 bind s1 = $ret0
+//@   call appendToParamString#2 assert [b-in-its-place] $paramName == "b" && $paramVal == fuseParams.Globals.ConfigBucketName && s1_set && $paramString == s1
+//@   call appendToParamString#2 bind s2 = $ret0
+//@   call appendToParamString#3 assert [a-in-its-place] $paramName == "a" && $paramVal == fuseParams.Globals.ContextName && s2_set && $paramString == s2
+//@   call appendToParamString#3 bind s3 = $ret0
+//@   only appendToParamString 3
+//@   call TrimSuffix#1 assert [the-whole-string-minus-the-last-separator] s3_set && $0 == s3 && $1 == itemSep
+//@   ensures [success-means-every-parameter-was-offered] ret1 == nil ==> s3_set
+//@   ensures [required-globals] ret1 == nil ==> fuseParams.Globals.CoordPoint != "" && fuseParams.Globals.ConfigBucketName != "" && fuseParams.Globals.ContextName != ""
+
+//@ func pgParamsDatabaseString
+//@   call Itoa#1 assert [the-port] $0 == dbParams.Port
+//@   call Itoa#1 bind port = $ret0
+//@   call appendToParamString#1 assert [p-in-its-place] $paramName == "p" && port_set && $paramVal == port && $paramString == itemSep + kvSep
+//@   call appendToParamString#1 bind s1 = $ret0
+//@   call appendToParamString#2 assert [m-in-its-place] $paramName == "m" && $paramVal == dbParams.DestMessage && s1_set && $paramString == s1
+//@   call appendToParamString#2 bind s2 = $ret0
+//@   call appendToParamString#3 assert [l-in-its-place] $paramName == "l" && $paramVal == dbParams.DestLabel && s2_set && $paramString == s2
+//@   call appendToParamString#3 bind s3 = $ret0
+//@   call appendToParamString#4 assert [r-in-its-place] $paramName == "r" && $paramVal == dbParams.DestRepo && s3_set && $paramString == s3
+//@   call appendToParamString#4 bind s4 = $ret0
+//@   call appendToParamString#5 assert [sl-in-its-place] $paramName == "sl" && $paramVal == dbParams.SrcLabel && s4_set && $paramString == s4
+//@   call appendToParamString#5 bind s5 = $ret0
+//@   call appendToParamString#6 assert [sr-in-its-place] $paramName == "sr" && $paramVal == dbParams.SrcRepo && s5_set && $paramString == s5
+//@   call appendToParamString#6 bind s6 = $ret0
+//@   call appendToParamString#7 assert [sb-in-its-place] $paramName == "sb" && $paramVal == dbParams.SrcBundle && s6_set && $paramString == s6
+//@   call appendToParamString#7 bind s7 = $ret0
+//@   only appendToParamString 7
+//@   call TrimSuffix#1 assert [the-whole-string-minus-the-last-separator] s7_set && $0 == s7 && $1 == itemSep
+//@   ensures [success-means-every-parameter-was-offered] ret1 == nil ==> s7_set
+
+// the two branches offer the same name with the literal of the flag
+//@ func pgParamsGlobalString
+//@   call appendToParamString#1 assert [c-in-its-place] $paramName == "c" && $paramVal == pgParams.Globals.CoordPoint && (pgParams.Globals.SleepInsteadOfExit ==> $paramString == itemSep + kvSep + ("S" + itemSep)) && (!pgParams.Globals.SleepInsteadOfExit ==> $paramString == itemSep + kvSep)
+//@   call appendToParamString#1 bind s1 = $ret0
+//@   call appendToParamString#2 assert [V-true] pgParams.Globals.IgnorePGVersionMismatch && $paramName == "V" && $paramVal == "true" && s1_set && $paramString == s1
+//@   call appendToParamString#3 assert [V-false] !pgParams.Globals.IgnorePGVersionMismatch && $paramName == "V" && $paramVal == "false" && s1_set && $paramString == s1
+//@   call appendToParamString#2 bind s2 = $ret0
+//@   call appendToParamString#3 bind s3 = $ret0
+//@   only appendToParamString 3
+//@   call TrimSuffix#1 assert [the-whole-string-minus-the-last-separator] (s2_set && $0 == s2 || s3_set && $0 == s3) && $1 == itemSep
+//@   ensures [success-means-every-parameter-was-offered] ret1 == nil ==> s2_set || s3_set
+//@   ensures [required-globals] ret1 == nil ==> pgParams.Globals.CoordPoint != ""
+
+// one string per bundle / database, stored under that bundle's / database's name
+//@ func fuseParamsBundleStrings
+//@   call fuseParamsBundleString#1 assert [of-this-bundle] $0 == bundleParams
+//@   call fuseParamsBundleString#1 bind bs = $ret0
+//@   loop 1 step [stored-under-its-name] has(rv, bundleParams.Name) && bs_set && rv[bundleParams.Name] == bs
+//@ func pgParamsDatabaseStrings
+//@   call pgParamsDatabaseString#1 assert [of-this-database] $0 == dbParams
+//@   call pgParamsDatabaseString#1 bind ds = $ret0
+//@   loop 1 step [stored-under-its-name] has(rv, dbParams.Name) && ds_set && rv[dbParams.Name] == ds
